@@ -1,6 +1,6 @@
 """Property -> rules table."""
 
-from .rules import inplace, maps, exponent, decomp, threads, evo, tebd, record, iso, optflow, registries, dmrg, bp, linalg, symmetry, gating
+from .rules import inplace, maps, exponent, decomp, threads, evo, tebd, record, iso, optflow, registries, dmrg, bp, linalg, symmetry, gating, circuit
 import functools
 
 COMMON_ASSUMPTIONS = [
@@ -65,6 +65,18 @@ REGISTRY = {
             "local expectation / reduced state, the totality of the route dispatchers, the non-mutation discipline of the "
             "routes that take `inplace`, and (for the 1D canonical routes) the record rules of C08. Does NOT decide agreement "
             "with the dense answer, Hermiticity, site-ordering or operator-transposition conventions (value-level)."
+        ),
+        "assumptions": COMMON_ASSUMPTIONS,
+    },
+    "C07": {
+        "rules": [circuit.rule_cache_check, circuit.rule_writers_invalidate, circuit.rule_copy_complete, circuit.rule_gate_registry,
+                  record.rule_clients],
+        "explanation": (
+            "static: decides (narrowly) the cache-staleness discipline of the circuit simulators (every memo access is preceded by "
+            "the gate-count check; every parameter / state rewrite that keeps the gate count clears the memos), completeness of "
+            "copy(), agreement between the gate registries and the convenience methods, and that the MPS simulators thread one "
+            "canonical-form record. Does NOT decide unitarity of the registered gates, agreement with U_n...U_1|psi0>, sampler "
+            "supports / probabilities, or light-cone cancellation correctness."
         ),
         "assumptions": COMMON_ASSUMPTIONS,
     },
@@ -307,6 +319,7 @@ REGISTRY = {
 
 
 TECHNIQUE = {
+    "C07": "static analysis: dominance-style rule (staleness check before every memo access), writers-must-invalidate rule, copy completeness, static evaluation of the gate registries vs convenience methods",
     "C06": "static analysis: closed-vocabulary rule for gate modes, structural rewiring (reindex-before-attach) rule, option delivery (OPTFLOW) over the gate entry points, effect analysis",
     "C19": "static analysis: decision-table extraction of the symmetry dispatchers, kernel-name/arity agreement, sibling comparison of strided kernels and launchers",
     "C17": "static analysis: static evaluation of the backend registries, interface + use-or-reject rules, consistency of the dense routine table",
